@@ -442,14 +442,19 @@ for i in range(start, len(calls)):
         os.write(fd, (json.dumps([i, r]) + "\n").encode())
     else:
         os.write(fd, b"S%d\n" % i)
+        signal.setitimer(signal.ITIMER_VIRTUAL, 5.0)      # a call that does not come back kills the driver (SIGVTALRM)
         r = one(c)
+        signal.setitimer(signal.ITIMER_VIRTUAL, 0)
         os.write(fd, (json.dumps([i, r]) + "\n").encode())
 os.close(fd)
 print("@@" + json.dumps({"done": len(calls)}))
 '''
 
 
-def run_acquisitions(build, calls, tag="acq", timeout=3000):
+ABORTED = []      # tags of call tables that were given up after too many unpredicted deaths of the driver
+
+
+def run_acquisitions(build, calls, tag="acq", timeout=3000, max_deaths=12):
     """calls: [fn, fmt text, itemsize, shape, strides|None, offset, suboffsets|None, risky] -> observations
     ["ok", values, gets, releases] | ["exc", type name, gets, releases] | ["crash", signal] | ["hang", signal]"""
     moddir = os.path.dirname(build.so)
@@ -492,12 +497,14 @@ def run_acquisitions(build, calls, tag="acq", timeout=3000):
                 nxt += 1
             if nxt >= len(calls):
                 break
-        obs[nxt] = ["hang", "timeout"] if ch.timed_out else ["crash", ch.signal or ("exit%s" % ch.rc)]
+        obs[nxt] = ["hang", "timeout"] if ch.timed_out else ["hang", ch.signal] if ch.signal == 26 else ["crash", ch.signal or ("exit%s" % ch.rc)]
         core.CRASH_LOGS.append({"call": calls[nxt], "obs": obs[nxt], "stderr": ch.err[-2000:]})
         deaths += 1
-        if deaths > 300:
-            core.die("too many deaths of the acquisition driver")
         start = nxt + 1
+        if deaths >= max_deaths:
+            # every death is a disagreement already; the rest of this table stays unexecuted (observation None)
+            ABORTED.append(tag)
+            break
     return obs
 
 
